@@ -322,6 +322,18 @@ def check(ctx):
     is_builder = lambda fid: "PushStateBuilder::<" in fid
     is_hasstack = lambda fid: fid.endswith(">::stack_mut") and " as push::push_vm::stack::HasStack<" in fid
     RTC_ = "<push::push_vm::push_state::PushState as push::push_vm::State>::run_to_completion"
+    # a private helper of the interpreter loop that is new to the rule base (called from run_to_completion only) is part of it
+    from .graph import fn_uses as _fu
+    _callers = {}
+    for g in ctx.F.fns.values():
+        for kind2, path2, full2, rdef2, rlocal2, bi2, span2, t2 in _fu(g):
+            for tgt in (rdef2, path2):
+                if tgt in ctx.F.fns:
+                    _callers.setdefault(tgt, set()).add(g.root or g.id)
+    rtc_family = {RTC_}
+    for fid, cs in _callers.items():
+        if ctx.F.is_new_fn(fid) and cs and cs <= {RTC_} and not ctx.F.fns[fid].pub:
+            rtc_family.add(fid)
     STDOUT_ = "<push::push_vm::push_state::PushState as push::push_vm::push_io::HasStdout>::stdout"
     ctx.check(set(fields) >= {"exec", "input_instructions", "max_instruction_steps", "stdout"}, "R02.5", "PushState/fields-known", str(fields), adt["span"]["at"] if adt else None)
     for name in sorted(set(fields) | set(acc)):
@@ -333,27 +345,62 @@ def check(ctx):
             bad = sorted(w for w in writers if w != STDOUT_)
             what = "reached mutably only through HasStdout::stdout"
         else:
-            bad = sorted(w for w in writers if not (is_builder(w) or is_hasstack(w) or (name == "exec" and w == RTC_)))
+            bad = sorted(w for w in writers if not (is_builder(w) or is_hasstack(w) or (name == "exec" and w in rtc_family)))
             what = "reached mutably only through HasStack::stack_mut (+ builder" + (", run_to_completion's pop" if name == "exec" else "") + ")"
         ctx.check(not bad, "R02.5", "PushState.%s/%s" % (name, what.replace(" ", "-")), "%d mutable access site function(s)" % len(writers), None,
                   bad_detail="PushState.%s must be %s, but is also taken mutably / assigned in: %s" % (name, what, "; ".join(bad)))
-    rt = ctx.fn("<push::push_vm::push_state::PushState as push::push_vm::State>::run_to_completion")
-    body = [p for p in ctx.paths(rt) if p.end != "unreachable"]
-    okr = False
-    counted = 0
-    for p in body:
-        perf = [c for c in p.calls() if callee_is(c, "State::perform", "Instruction::perform")]
-        if not perf:
-            continue
-        tr = [c for c in p.calls() if callee_is(c, "TryRecover::try_recover")]
-        good = len(perf) == 1 and len(tr) == 1 and tr[0][3][0] == perf[0]
-        d = [c for c in p.conds if c[0][0] == "discr" and callee_is(c[0][1], "Try::branch") and c[0][1][3][0] == tr[0]] if tr else []
-        if good and d and d[0][1] == 0:
-            # continuing after Ok(state) - whether the instruction succeeded or was recovered - counts one step
-            ca = [c for c in p.calls() if callee_is(c, "usize::checked_add")]
-            counted += 1 if len(ca) == 1 and match(ca[0][3][1], Const(1)) else 0
-            okr = True
-        elif good and d and d[0][1] == 1:
-            okr = okr and callee_is(p.ret, "FromResidual::from_residual")
-    ctx.check(okr and counted >= 1, "R02.4", "run_to_completion/try_recover()?-on-every-perform-and-step-counted-after-recovery", "%d continuing path(s) count a step" % counted, rt.at(),
-              bad_detail="every perform result must go through try_recover()? and the step counter must be advanced on the continuing edge (recovered errors cost one step like a no-op)")
+    def rtc_legacy(ctx):
+        rt = ctx.fn("<push::push_vm::push_state::PushState as push::push_vm::State>::run_to_completion")
+        body = [p for p in ctx.paths(rt) if p.end != "unreachable"]
+        okr = False
+        counted = 0
+        for p in body:
+            perf = [c for c in p.calls() if callee_is(c, "State::perform", "Instruction::perform")]
+            if not perf:
+                continue
+            tr = [c for c in p.calls() if callee_is(c, "TryRecover::try_recover")]
+            good = len(perf) == 1 and len(tr) == 1 and tr[0][3][0] == perf[0]
+            d = [c for c in p.conds if c[0][0] == "discr" and callee_is(c[0][1], "Try::branch") and c[0][1][3][0] == tr[0]] if tr else []
+            if good and d and d[0][1] == 0:
+                # continuing after Ok(state) - whether the instruction succeeded or was recovered - counts one step
+                ca = [c for c in p.calls() if callee_is(c, "usize::checked_add")]
+                counted += 1 if len(ca) == 1 and match(ca[0][3][1], Const(1)) else 0
+                okr = True
+            elif good and d and d[0][1] == 1:
+                okr = okr and callee_is(p.ret, "FromResidual::from_residual")
+        ctx.check(okr and counted >= 1, "R02.4", "run_to_completion/try_recover()?-on-every-perform-and-step-counted-after-recovery", "%d continuing path(s) count a step" % counted, rt.at(),
+                  bad_detail="every perform result must go through try_recover()? and the step counter must be advanced on the continuing edge (recovered errors cost one step like a no-op)")
+
+    def rtc_canonical(ctx):
+        """the same clause over canonical outcomes: whatever the spelling, each perform result goes through try_recover, its Ok
+        continues (and the iteration is counted: checked_add(counter, 1) or one element of 0..max consumed), its Err is returned"""
+        from . import ckit as K
+        rt = ctx.fn("<push::push_vm::push_state::PushState as push::push_vm::State>::run_to_completion")
+        paths = K.live(ctx.cpaths(rt))
+        okr, counted, seen = True, 0, 0
+        for p in paths:
+            perf = K.calls_of(p, "State::perform", "Instruction::perform")
+            if not perf:
+                continue
+            seen += 1
+            tr = K.calls_of(p, "TryRecover::try_recover")
+            good = len(perf) == 1 and len(tr) == 1 and tr[0][3][0] == perf[0]
+            if not good:
+                okr = False
+                continue
+            if K.discr_is(p, lambda o: o == tr[0], 0):
+                ca = K.calls_of(p, "usize::checked_add")
+                rng_step = [c for c in p.conds if c[0][0] == "discr" and callee_is(c[0][1], "Iterator::next") and c[1] == 1 and
+                            match(c[0][1][3][0], Through(Call("IntoIterator::into_iter", Agg("Range::Range", Const(0), Call("PushState::max_instruction_steps", Through(Param(1)), nargs=1)), nargs=1)))]
+                if (len(ca) == 1 and match(ca[0][3][1], Const(1))) or rng_step:
+                    counted += 1
+            elif K.discr_is(p, lambda o: o == tr[0], 1):
+                kind, pay = K.outcome(p)
+                okr = okr and kind == "err" and K.conv_free(pay) == ("field", tr[0], 0, "Err")
+            else:
+                okr = False
+        ctx.check(okr and counted >= 1 and seen >= 2, "R02.4", "run_to_completion/try_recover()?-on-every-perform-and-step-counted-after-recovery", "%d continuing path(s) count a step" % counted, rt.at(),
+                  bad_detail="every perform result must go through try_recover, its Err must be returned and the step must be counted on the continuing edge")
+
+    from . import ckit as _K2
+    _K2.either(ctx, rtc_legacy, rtc_canonical)
